@@ -13,23 +13,16 @@ CT = 'frontends/tui/controller.py'
 
 MUTANTS = [
     # ---- C01
-    ('c01-split-on-comma-only', ['C01'], P, "if args_str[i:].startswith(', '):", "if args_str[i:].startswith(','):"),
-    ('c01-no-quote-tracking', ['C01'], P, "        if args_str[i] == '\"':\n            i = end_of_str(args_str, i)\n", ""),
     ('c01-hash-dialect-lost', ['C01'], P, r"message_regex = r'(?P<type>\w+)[@#]", r"message_regex = r'(?P<type>\w+)[@]"),
     ('c01-direction-inverted-with-queue', ['C01'], P, "    abs_timestamp = float(", "    if '{' in raw[:40]: sent = not sent\n    abs_timestamp = float("),
-    ('c01-fd-as-int', ['C01'], P, "return wl.Arg.Fd(int(match.group('fd')))", "return wl.Arg.Int(int(match.group('fd')))"),
-    ('c01-accepts-missing-paren', ['C01'], P, r"\((?P<args>.*)\)$'", r"\((?P<args>.*)\)?$'"),
     # ---- C02
     ('c02-retrieve-first-generation', ['C02', 'C14'], MSG, "self.destroyed_obj = conn.retrieve_object(first_arg.value, -1, None)", "self.destroyed_obj = conn.retrieve_object(first_arg.value, 0, None)"),
     ('c02-bind-type-from-wrong-arg', ['C02'], MSG, "self.args[3].set_type(self.args[1].value)", "self.args[3].set_type(str(self.args[1].value).split('_v')[0])"),
     ('c02-generation-stuck-after-two', ['C02', 'C14'], CI, "generation = len(self.db[obj_id])", "generation = min(len(self.db[obj_id]), 2)"),
-    ('c02-letters-off-by-one-at-z', ['C02', 'C14'], LID, "        value //= 26\n    return result", "        value //= 26\n    return result if len(result) < 2 else result[1:] + result[:1]"),
     # ---- C03
-    ('c03-no-implicit-destroy', ['C03'], CI, "                    last_obj.destroy(time)\n", "                    pass\n"),
     ('c03-lifespan-from-zero', ['C03'], OBJ, "return self.destroy_time - self.create_time", "return self.destroy_time - (self.create_time if self.generation else 0.0)"),
     ('c03-destroy-keeps-alive-on-reuse', ['C03'], OBJ, "        self.destroy_time = time\n        self.alive = False", "        self.destroy_time = time\n        self.alive = self.generation > 3"),
     # ---- C04
-    ('c04-role-from-any-first-message', ['C04'], P, "                is_server = not msg.sent\n", "                is_server = not msg.sent\n            elif msg.name == 'sync':\n                is_server = msg.sent\n"),
     ('c04-close-only-first-connection', ['C04'], P, "        for conn_id in self.known_connections:\n            self.sink.close_connection(self.last_time, conn_id)", "        for conn_id in sorted(self.known_connections)[:3]:\n            self.sink.close_connection(self.last_time, conn_id)"),
     ('c04-name-generator-reused-after-close', ['C04', 'C14'], CM, "            connection.close(time)\n", "            connection.close(time)\n            self.connection_name_generator.index -= 1 if len(self.connection_list) > 3 else 0\n"),
     # ---- C07
@@ -39,5 +32,71 @@ MUTANTS = [
     ('c07-enum-path-split', ['C07'], PR, "    enum_interface_name = enum_name_parts[-2]", "    enum_interface_name = enum_name_parts[0]"),
     ('c07-arg-index-off-by-one-after-new-id', ['C07'], PR, "    arg = arg_list[arg_index]\n", "    arg = arg_list[arg_index if arg_index < 5 else arg_index - 1]\n"),
     # ---- C14
-    ('c14-letter-inverse-case', ['C14'], LID, "    text = text.lower()\n", "    text = text if len(text) < 2 else text.lower()\n"),
+]
+
+EX = 'backends/gdb_plugin/extract.py'
+PL = 'backends/gdb_plugin/plugin.py'
+AR = 'frontends/tui/arguments.py'
+GR = 'backends/gdb_plugin/runner.py'
+RU = 'backends/libwayland_debug_output/runner.py'
+UT = 'core/util.py'
+ARG = 'core/wl/arg.py'
+
+MUTANTS += [
+    # ---- the repaired defects, re-introduced (each check must catch the defect it was repaired for)
+    ('revert-c01-empty-string', ['C01'], P, "elif match.group('str') is not None:", "elif match.group('str'):"),
+    ('revert-c01-array-n', ['C01'], P, r"array_re = r'(?P<array>array(?:\[\d+\])?)'", r"array_re = r'(?P<array>array)'"),
+    ('revert-c01-earliest-match', ['C01'], P, "    if in_match and (not match or in_match.start() < match.start()):", "    if in_match and not match:"),
+    ('revert-c01-greedy-queue', ['C01'], P, "queue_re = r'( {.*?})?'", "queue_re = r'( {.*})?'"),
+    ('revert-c05-arg-brackets', ['C05'], MA, "    if text.startswith('[') and text.endswith(']') and _find_closing_brace(text, 0) == len(text) - 1:", "    if text.startswith('[') and text.endswith(']'):"),
+    ('revert-c09-array-index', ['C09'], EX, "for elem_index in range(size // int_type.sizeof): # must not reuse i, it is the argument index\n                    elem = value['data'].cast(int_type.pointer())[elem_index]",
+     "for i in range(size // int_type.sizeof):\n                    elem = value['data'].cast(int_type.pointer())[i]"),
+    ('revert-c09-null-string', ['C09'], EX, "                    args.append(wl.Arg.Null())\n                else:\n                    args.append(wl.Arg.String(value.string()))",
+     "                    args.append(wl.Arg.String('[null string]'))\n                else:\n                    args.append(wl.Arg.String(value.string()))"),
+    ('revert-c15-keyerror', ['C15'], PL, "        self.connections.pop(connection_id, None)\n", "        del self.connections[connection_id]\n"),
+    ('revert-c17-strip-colour-first', ['C17'], CT, "        input_line = no_color(input_line).strip() # strip color first, or leading whitespace hides behind an escape sequence", "        input_line = input_line.strip()"),
+    ('revert-c18-int-matcher-inf', ['C18'], MA, "            try:\n                int_value = int(arg.value)\n            except (OverflowError, ValueError): # inf and nan are not integers\n                return False\n            return arg.value == int_value and self.wrapped.matches(int_value)",
+     "            return arg.value == int(arg.value) and self.wrapped.matches(int(arg.value))"),
+    ('revert-c18-connection-silent', ['C18'], CT, "        if not self.connection_list.connections():\n            self.out.show('No connections yet')\n", ""),
+    ('revert-c18-undecodable-file', ['C18'], 'main.py', "open(file_path, errors='replace')", "open(file_path)"),
+    ('revert-c18-undecodable-run', ['C18'], RU, "os.fdopen(readable, 'r', errors='replace')", "os.fdopen(readable, 'r')"),
+    ('revert-c19-empty-f', ['C19'], AR, "    if args.f is not None:", "    if args.f:"),
+    ('revert-c19-repr-quoting', ['C19'], GR, "', '.join(repr(i) for i in args.wayland_debug_args)", "', '.join('\"' + i.replace('\"', '\\\\\"') + '\"' for i in args.wayland_debug_args)"),
+    # ---- C05
+    ('c05-generation-ignored-uppercase', ['C05', 'C14'], MA, "    return EqMatcher(letter_id_to_number(text), text)", "    return EqMatcher(letter_id_to_number(text), text) if text.islower() else AlwaysMatcher(True)"),
+    ('c05-conn-prefix-dropped-on-arg-half', ['C05', 'C14'], MA, "            object_arg_matcher = MessagePattern(conn_matcher, AlwaysMatcher(True), AlwaysMatcher(True), args_matcher)", "            object_arg_matcher = MessagePattern(AlwaysMatcher(True), AlwaysMatcher(True), AlwaysMatcher(True), args_matcher)"),
+    # ---- C06
+    ('c06-stop-matcher-used-for-display', ['C06'], CT, "            if self.display_matcher.matches(message):\n                self._show_message(message)", "            if self.display_matcher.matches(message) or (self.stop_matcher.matches(message) and self.current_connection is not None):\n                self._show_message(message)"),
+    # ---- C08
+    ('c08-blank-lines-swallowed', ['C08'], P, "            line = line.strip() # be sure to strip after the empty check\n", "            line = line.strip() # be sure to strip after the empty check\n            if not line and self.last_time > 2:\n                continue\n"),
+    # ---- C10
+    ('c10-pause-flag-not-cleared', ['C10'], PL, "        if self.state.paused():\n            self.state.resume_requested()\n", "        if self.state.paused() and connection_id in self.connections:\n            self.state.resume_requested()\n"),
+    ('c10-continue-after-help', ['C10'], PL, "        elif not self.state.paused():\n            gdb.execute('continue')", "        elif not self.state.paused() or command.strip().startswith('h'):\n            gdb.execute('continue')"),
+    # ---- C11
+    ('c11-cap-off-by-one', ['C11'], CT, "                if cap and len(acc) >= cap:", "                if cap and len(acc) > cap:"),
+    ('c11-not-checked-forgotten', ['C11'], CT, "len(messages) - len(acc) - didnt_match)", "0 if len(acc) > 2 else len(messages) - len(acc) - didnt_match)"),
+    ('c11-list-joins-into-filter', ['C11'], CT, "            m = self.parse_and_join(arg, None)", "            m = self.parse_and_join(arg, None)\n            if len(self.all_messages) > 12:\n                self.display_matcher = m"),
+    # ---- C12
+    ('c12-error-resets-to-never', ['C12'], CT, "            return old if old is not None else matcher.never", "            return matcher.never"),
+    ('c12-exclusions-dropped-on-join', ['C12'], MA, "    new_list.negative += old_list.negative\n", "    new_list.negative += old_list.negative[:1]\n"),
+    # ---- C13
+    ('c13-exit-status-ignored-above-127', ['C13'], 'main.py', "            exit(returncode)", "            exit(returncode if returncode < 128 else 1)"),
+    ('c13-env-not-set-when-present', ['C13', 'C19'], RU, "        env['WAYLAND_DEBUG'] = '1'", "        env.setdefault('WAYLAND_DEBUG', 'client')"),
+    # ---- C16
+    ('c16-threshold-two-seconds-in-list', ['C16'], CT, "        if delta > 1.0:", "        if delta > (1.0 if self.last_shown_timestamp is None or len(self.all_messages) < 9 else 2.0):"),
+    # ---- C17
+    ('c17-unguarded-escape-in-null', ['C17'], ARG, "            return color(null_color, 'null ' + (self.type if self.type else '??'))", "            return color(null_color, 'null ') + (self.type if self.type else '\\x1b[1;91m??\\x1b[0m')"),
+    ('c17-width-on-coloured-text', ['C17'], CT, "                    body = cmd.help.replace('\\n', '\\n' + ' ' * len(no_color(start)))", "                    body = cmd.help.replace('\\n', '\\n' + ' ' * len(start))"),
+    # ---- C19
+]
+
+MUTANTS += [
+    ('c03-implicit-destroy-only-on-type-change', ['C03'], CI, "                    last_obj.destroy(time)\n", "                    if last_obj.type != type_name:\n                        last_obj.destroy(time)\n"),
+    ('c05-new-ignores-object-of-later-generations', ['C05'], MA, "                if isinstance(arg, wl.Arg.Object) and arg.is_new and self.obj_matcher.matches(arg.obj):", "                if isinstance(arg, wl.Arg.Object) and arg.is_new and (self.obj_matcher.matches(arg.obj) or arg.obj.generation):"),
+    ('c05-float-matches-fd', ['C05'], MA, "        if isinstance(arg, wl.Arg.Float):\n            return self.wrapped.matches(arg.value)\n        else:\n            return False", "        if isinstance(arg, wl.Arg.Float) or isinstance(arg, wl.Arg.Fd):\n            return self.wrapped.matches(arg.value)\n        else:\n            return False"),
+    ('c08-passthrough-held-back-one-line', ['C08'], P, "            except RuntimeError as e:\n                self.out.unprocessed(str(e))\n", "            except RuntimeError as e:\n                if getattr(self, 'held', None) is not None:\n                    self.out.unprocessed(self.held)\n                self.held = str(e)\n"),
+]
+
+MUTANTS += [
+    ('c01-large-fd-as-int', ['C01'], P, "return wl.Arg.Fd(int(match.group('fd')))", "return wl.Arg.Fd(int(match.group('fd'))) if len(match.group('fd')) < 4 else wl.Arg.Int(int(match.group('fd')))"),
 ]
